@@ -434,10 +434,11 @@ def getbins(bins, mx, mn, right=True, check_bounds=False):
         bins = int(bins[0])
         bb = np.linspace(mn, mx, bins + 1)
         p = 0.001 * (mx - mn)
+        # (use `nextafter` in case `p` is too small to change value)
         if right:
-            bb[0] -= p
+            bb[0] = min(bb[0] - p, np.nextafter(mn, -np.inf))
         else:
-            bb[-1] += p
+            bb[-1] = max(bb[-1] + p, np.nextafter(mx, np.inf))
         out_of_bounds = False
     elif bins.ndim == 1:
         if np.any(np.diff(bins) <= 0):
